@@ -2844,7 +2844,10 @@ namespace bloch::runtime {
 
             bool lIsBool = l.type == Value::Type::Boolean;
             bool rIsBool = r.type == Value::Type::Boolean;
-            if (lIsBool || rIsBool) {
+            // "text" + true concatenates like every other primitive does
+            bool stringConcat = bin->op == "+" && (l.type == Value::Type::String ||
+                                                   r.type == Value::Type::String);
+            if ((lIsBool || rIsBool) && !stringConcat) {
                 auto toBool = [&](const Value& v) -> bool {
                     if (v.type == Value::Type::Boolean)
                         return v.boolValue;
